@@ -235,3 +235,13 @@ package bill
 //@   at-call Invoice).getTotals assert [taxdate.selected] date != nil && (unboxed(doc, *Invoice).ValueDate != nil ==> date == unboxed(doc, *Invoice).ValueDate) && (unboxed(doc, *Invoice).ValueDate == nil ==> *date == unboxed(doc, *Invoice).IssueDate)
 //@   at-call TotalCalculator).Calculate assert [taxdate.used] $arg0.Date == *date && $arg0.Rounding == rr && $arg0.Includes == pit
 //@   at-call roundLines assert [order] tc != nil
+//
+// the wiring of the payment total: every line is calculated with the payment's own currency
+// and declared exchange rates, and it is the line's total that is added to the running total
+// (ghost assertions; the rest of Payment.calculate — regime lookup, the lines' document
+// summaries and their merge — is outside the contract)
+//@ func (pmt *Payment) calculate() (err)
+//@   requires pmt != nil
+//@   modifies *
+//@   at-call PaymentLine).calculate assert [wiring] $arg0 == l && $arg1 == pmt.Currency && $arg2 == pmt.ExchangeRates
+//@   at-call Amount).Add assert [sum] $arg1 == l.Total
